@@ -17,7 +17,9 @@ inductive Fault
   | afterSend             -- the helper reads the request and dies before writing a reply byte
   | trunc (cls : String)  -- the helper serves the request, writes a proper prefix of the reply and
                           -- dies; `cls` = the class CPython's Unpickler raises on that prefix
-  | raises                -- serving raises an `Exception` inside the helper: it replies and lives
+  | raises (cls : String) -- the requested function raises an `Exception` of class `cls` inside the
+                          -- helper: it replies `(True, traceback, exc)` and lives.  A deletion request
+                          -- has no function: it is served normally
   | raisesFatal           -- serving raises a non-`Exception` BaseException: the helper dies silently
 deriving DecidableEq, Repr
 
@@ -46,6 +48,8 @@ structure Cfg where
   closeStreams : List Stream := Stream.all  -- `for stream in [...]` of `_cleanup_process`
   closePerStream : Bool := true             -- the `try/except` is INSIDE that loop (one per stream)
   closeCatch : List String := ["OSError"]   -- its except clause (the handler body is `pass`)
+  usedSetBeforeRun : Bool := true           -- `InferenceStateSubprocess.__getattr__.wrapper`: `self._used = True`
+                                            -- stands BEFORE `self._compiled_subprocess.run(...)`
 deriving Repr
 
 /-- CPython class hierarchy of the exception classes that occur (how an `except` clause matches) -/
@@ -66,7 +70,8 @@ def caught (cls : String) (clause : List String) : Bool :=
 
 inductive Out
   | ok
-  | raised (cls : String)
+  | raised (cls : String)   -- raised by the parent's own code
+  | remote (cls : String)   -- an exception object the helper sent back (`is_exception`), re-raised by `_send`
 deriving DecidableEq, Repr
 
 /-- one `CompiledSubprocess` object together with the OS process and `Listener` it owns -/
@@ -82,6 +87,7 @@ structure Proc where
   child : List Nat := []    -- keys of `Listener._inference_states`
   nreq : Nat := 0           -- requests the helper has read so far
   announced : List Nat := []-- ghost: every state id ever written to the helper
+  created : Nat := 0        -- ghost: how many inference states the `Listener` has created
   fds : List Stream := []   -- the parent's pipe ends to this helper that are still open (file descriptors)
   broken : List Stream := []-- streams whose `close()` raises `BrokenPipeError` (stdin: an unflushed
                             -- request is still buffered for a reader that is gone)
@@ -178,6 +184,18 @@ def loadFails (cfg : Cfg) (p : Proc) (cls : String) : Proc × Out :=
 def Proc.received (p : Proc) (r : Req) : Proc :=
   { p with nreq := p.nreq + 1, announced := r.sid.toList ++ p.announced }
 
+/-- the helper reads request `r` and `Listener._run` handles it: for `(id, function)` the state
+`id` is looked up / CREATED first (`_get_inference_state`), then the function runs; `(id, None)`
+deletes the state (`KeyError` if it is not there) -/
+def serve (p : Proc) (r : Req) : Proc × Out :=
+  let c := childServe p.child r
+  ({ p.received r with
+      child := c.1,
+      created := p.created + (match r with
+        | .call s => if p.child.contains s then 0 else 1
+        | _ => 0) },
+   if c.2 then .remote "KeyError" else .ok)
+
 /-- `CompiledSubprocess._send` -/
 def send (cfg : Cfg) (plan : Plan) (p : Proc) (r : Req) : Proc × Out :=
   if p.crashed then (p, .raised "InternalError") else
@@ -190,15 +208,11 @@ def send (cfg : Cfg) (plan : Plan) (p : Proc) (r : Req) : Proc × Out :=
   | .afterSend => loadFails cfg (p.received r).die "EOFError"
   | .raisesFatal => loadFails cfg (p.received r).die "EOFError"
   | .trunc cls => loadFails cfg (p.received r).die cls
-  | .raises =>
-    -- the state is created before the function body runs; a deletion does not happen
-    let c := match r with
-      | .call s => (childServe p.child (.call s)).1
-      | _ => p.child
-    ({ p.received r with child := c }, .raised "RuntimeError")
-  | .none =>
-    let (c, keyErr) := childServe p.child r
-    ({ p.received r with child := c }, if keyErr then .raised "KeyError" else .ok)
+  | .raises cls =>
+    match r with
+    | .delete _ => serve p r
+    | _ => ((serve p r).1, .remote cls)
+  | .none => serve p r
 
 /-- the `while True: pop; _send(delete_id, None)` loop of `CompiledSubprocess.run` -/
 def drain (cfg : Cfg) (plan : Plan) : Proc → List Nat → Proc × Out
@@ -233,6 +247,9 @@ def Env.setProc (e : Env) (p : Proc) : Env :=
 
 def Env.getProc (e : Env) (i : Nat) : Option Proc := e.procs.find? fun q => q.idx = i
 
+def Env.markUsed (e : Env) (s : Nat) : Env :=
+  { e with iss := e.iss.map fun j => if j.s = s then { j with used := true } else j }
+
 /-- `Environment._get_subprocess` -/
 def getSub (cfg : Cfg) (plan : Plan) (e : Env) : Env × Out :=
   match e.procs with
@@ -247,6 +264,17 @@ where
     | .ok => (e', .ok)
     | .raised c =>
       if caught c cfg.envCatch then (e', .raised "InvalidPythonEnvironment") else (e', .raised c)
+    | .remote c =>
+      if caught c cfg.envCatch then (e', .raised "InvalidPythonEnvironment") else (e', .remote c)
+
+/-- `self._compiled_subprocess.run(self._inference_state_id, func, ...)` of the Script bound to
+helper `k` -/
+def callRun (cfg : Cfg) (plan : Plan) (e : Env) (k s : Nat) : Env × Out :=
+  match e.getProc k with
+  | none => (e, .raised "NoSuchProc")
+  | some p =>
+    let r := run cfg plan p s
+    (e.setProc r.1, r.2)
 
 /-- what the API layer does with the helper -/
 inductive Op
@@ -278,17 +306,18 @@ def step (cfg : Cfg) (plan : Plan) (e : Env) : Op → Env × Out
     match e.iss.find? fun i => i.s = s with
     | none => (e, .raised "NoSuchState")
     | some i =>
-      let e := { e with iss := e.iss.map fun j => if j.s = s then { j with used := true } else j }
-      match e.getProc i.proc with
-      | none => (e, .raised "NoSuchProc")
-      | some p =>
-        let (p', o) := run cfg plan p s
-        (e.setProc p', o)
+      -- `wrapper`: `self._used = True` stands before `run(...)`, or after it (then it is reached
+      -- only when `run` returns)
+      if cfg.usedSetBeforeRun then callRun cfg plan (e.markUsed s) i.proc s
+      else
+        let r := callRun cfg plan e i.proc s
+        (if r.2 == .ok then r.1.markUsed s else r.1, r.2)
   | .drop s =>
     match e.iss.find? fun i => i.s = s with
     | none => (e, .ok)
     | some i =>
-      let e := { e with iss := e.iss.filter fun j => j.s != s }
+      -- the object found above goes away (ids of live objects are distinct: it is the only one)
+      let e := { e with iss := e.iss.eraseP fun j => j.s = s }
       match e.getProc i.proc with
       | none => (e, .ok)
       | some p =>
